@@ -87,7 +87,7 @@ def main():
             t0 = time.time()
             rc, out = sh(['/verif/run_check.sh', c, a.tier], env=env, timeout=7200)
             lines = [l for l in out.splitlines() if 'conda' not in l.lower()]
-            rcs[c] = rc
+            rcs[c if a.tier == 'quick' else c + '@' + a.tier] = rc
             key = next((l.strip()[:400] for l in lines if l.strip().startswith('witness[')), '')
             meta['ran'].append('./run_check.sh %s %s on patched copy -> rc %d in %.0fs %s' % (c, a.tier, rc, time.time() - t0, key))
             print('check %s %s: rc=%d  %s' % (c, a.tier, rc, key[:300]))
